@@ -719,7 +719,14 @@ class _Pool1d(OpDef):
         return out
 
     def illegal_configs(self, tier):
-        return [{"N": 1, "C": 1, "L": 2, "k": 3, "s": 1, "p": 0, "d": 1, "via": "F"}]
+        out = [{"N": 1, "C": 1, "L": 2, "k": 3, "s": 1, "p": 0, "d": 1, "via": "F"}]
+        if self.is_max:
+            # more padding than half the kernel: some window lies entirely in the padding, so "padding never wins" cannot be
+            # honoured (the value would be the pad value -inf); PyTorch: "pad should be at most half of kernel size"
+            out += [{"N": 1, "C": 1, "L": 3, "k": 1, "s": 1, "p": 1, "d": 1, "via": "F"},
+                    {"N": 1, "C": 1, "L": 3, "k": 2, "s": 1, "p": 2, "d": 1, "via": "M"},
+                    {"N": 1, "C": 1, "L": 4, "k": 3, "s": 2, "p": 2, "d": 1, "via": "F"}]
+        return out
 
     def inputs(self, args):
         return [Inp("x", (args["N"], args["C"], args["L"]))]
@@ -787,7 +794,11 @@ class _Pool2d(OpDef):
         return out
 
     def illegal_configs(self, tier):
-        return [{"H": 2, "W": 2, "k": 3, "s": 1, "p": 0, "d": 1, "N": 1, "C": 1, "via": "F"}]
+        out = [{"H": 2, "W": 2, "k": 3, "s": 1, "p": 0, "d": 1, "N": 1, "C": 1, "via": "F"}]
+        if self.is_max:
+            out += [{"H": 2, "W": 3, "k": 2, "s": 1, "p": [0, 2], "d": 1, "N": 1, "C": 1, "via": "F"},
+                    {"H": 2, "W": 2, "k": [1, 2], "s": 1, "p": 1, "d": 1, "N": 1, "C": 1, "via": "M"}]
+        return out
 
     def inputs(self, args):
         return [Inp("x", (args["N"], args["C"], args["H"], args["W"]))]
